@@ -31,6 +31,7 @@ def run(rep: core.Report):
     _r13c(rep, tus)
     _r13e(rep)
     _r13f(rep, tus)
+    _r13g(rep)
     from rules import c13_abi, c13_bounds
 
     c13_abi.run(rep, an, tus)
@@ -403,6 +404,97 @@ def _r13f(rep, tus):
 # ---------------------------------------------------------------------------
 
 
+def _r13g(rep):
+    """Closed-form helpers of the derivative kernel: get_dA / get_dC are the q-derivatives of get_A / get_C
+    (symbolic differentiation after unrolling the 3-trip loops), and the Python reference helpers contract /
+    differentiate along the same tensor axis."""
+    import sympy as sp
+    from engine import symalg
+
+    rep.rule("R13g", "derivative kernel helpers: get_dA(atom, i, j) == d get_A(atom, i, q)/dq_j and get_dC(.., k, q) == d get_C(q)/dq_k for j, k in 0..2; the Python reference _A/_dA use the same Born-tensor axis", 8)
+    DD = "c/derivative_dynmat.c"
+    tu = cast.load(DD)
+    need = ("get_A", "get_dA", "get_C", "get_dC")
+    for n_ in need:
+        if n_ not in tu.functions:
+            raise AnalysisError(f"anchor vanished: {n_} in {DD}")
+    q = [sp.Symbol(f"q{i}") for i in range(3)]
+    born, diel = sp.Function("born"), sp.Function("dielectric")
+
+    def sub_hook(t, e, tr, env):
+        ks = cast.kids(e)
+        base = cast.text(cast.strip(ks[0]))
+        idx = sp.expand(tr.expr(ks[1], env))
+        if base == "q":
+            return q[int(idx)] if idx.is_Integer else None
+        if base == "born":
+            return born(idx)
+        if base == "dielectric":
+            return diel(idx)
+        return None
+
+    names = {n_: sp.Symbol(n_, integer=True) for n_ in ("atom_i", "cart_i", "cart_j", "cart_k")}
+    tr = symalg.CTranslator(names, sub_hook=sub_hook, where=DD)
+    A = tr.function(tu.functions["get_A"])
+    dA = tr.function(tu.functions["get_dA"])
+    if len(A) != 1 or len(dA) != 1:
+        raise AnalysisError("R13g: get_A / get_dA are no longer single-path functions")
+    for j in range(3):
+        want = sp.diff(A[0].expr, q[j])
+        got = dA[0].expr.subs(names["cart_j"], j)
+        rep.instance("R13g", DD, "get_dA", f"get_dA(atom_i, cart_i, {j}) == d get_A/dq_{j} = {want}", sp.simplify(want - got) == 0,
+                     f"get_dA returns {got} where the derivative of get_A with respect to q[{j}] is {want}: for Born tensors that are not symmetric matrices the NAC part of the derivative kernel differs from the Python reference and from the numerical derivative", line=tu.line(tu.functions["get_dA"]))
+    C = tr.function(tu.functions["get_C"])
+    dC = tr.function(tu.functions["get_dC"])
+    for k in range(3):
+        want = sp.expand(sp.diff(C[0].expr, q[k]))
+        sel = [b for b in dC if all((txt == f"cart_k == {k}") == truth for txt, truth in b.conds if txt.startswith("cart_k =="))]
+        sel = [b for b in sel if any(txt == f"cart_k == {k}" and truth for txt, truth in b.conds)]
+        ok = len(sel) == 1 and sp.simplify(sp.expand(sel[0].expr) - want) == 0
+        rep.instance("R13g", DD, "get_dC", f"get_dC(.., cart_k={k}, q) == d get_C/dq_{k}", ok, f"get_dC for cart_k = {k} returns {sel[0].expr if sel else '<no branch>'}, the derivative of get_C is {want}", line=tu.line(tu.functions["get_dC"]))
+    # which Born axis is contracted with q: C (coefficient of the summation index in the flat subscript) and Python (np.dot operand order)
+    terms = [t for t in sp.Add.make_args(sp.expand(A[0].expr))]
+    axes_c = set()
+    for t in terms:
+        f = [x for x in t.atoms(sp.Function) if x.func == born]
+        qs = [x for x in t.free_symbols if x in q]
+        if len(f) == 1 and len(qs) == 1:
+            idx = f[0].args[0]
+            coeff = sp.expand(idx - idx.subs(names["cart_i"], 0)).coeff(names["cart_i"]) if False else None
+            a = q.index(qs[0])
+            rest = sp.expand(idx - names["atom_i"] * 9 - names["cart_i"] * idx.coeff(names["cart_i"]))
+            if rest == a * 3 and idx.coeff(names["cart_i"]) == 1:
+                axes_c.add(1)
+            elif rest == a and idx.coeff(names["cart_i"]) == 3:
+                axes_c.add(2)
+            else:
+                axes_c.add("?")
+    PYD = "phonopy/harmonic/derivative_dynmat.py"
+    fa = core.find_def(PYD, "DerivativeOfDynamicalMatrix._A")
+    fd = core.find_def(PYD, "DerivativeOfDynamicalMatrix._dA")
+    ra = [r.value for r in ast.walk(fa) if isinstance(r, ast.Return)]
+    rd = [r.value for r in ast.walk(fd) if isinstance(r, ast.Return)]
+    axis_py = axis_pyd = None
+    if ra and isinstance(ra[0], ast.Call) and core.src(ra[0].func) == "np.dot" and len(ra[0].args) == 2:
+        a0, a1 = ra[0].args
+        if core.src(a0) == "q" and isinstance(a1, ast.Subscript) and not isinstance(a1.slice, ast.Tuple):
+            axis_py = 1  # q . Z[atom]: first axis of the 3x3 tensor = axis 1 of Z
+        elif core.src(a1) == "q" and isinstance(a0, ast.Subscript) and not isinstance(a0.slice, ast.Tuple):
+            axis_py = 2
+    if rd and isinstance(rd[0], ast.Subscript) and isinstance(rd[0].slice, ast.Tuple) and len(rd[0].slice.elts) == 3:
+        for pos, el in enumerate(rd[0].slice.elts):
+            if isinstance(el, ast.Name) and el.id == "xyz":
+                axis_pyd = pos
+    if axis_py is None or axis_pyd is None:
+        rep.unknown("R13g: form of the Python reference _A / _dA not recognised")
+    else:
+        rep.instance("R13g", PYD, "DerivativeOfDynamicalMatrix._dA", f"_A contracts q with axis {axis_py} of Z, _dA places the derivative index on axis {axis_pyd}", axis_py == axis_pyd,
+                     "the Python reference differentiates along a different Born-tensor axis than it contracts", line=fd.lineno)
+        rep.instance("R13g", DD, "get_A", f"C contracts q with Born axis {sorted(axes_c, key=str)}, Python with axis {axis_py}", axes_c == {axis_py},
+                     "the compiled helper and the Python reference contract q with different axes of the Born effective charge tensor", line=tu.line(tu.functions["get_A"]))
+    rep.assume("R13g: the dielectric tensor is symmetric (the Python reference _dB uses 2 eps q, the kernel (eps + eps^T) q)")
+
+
 def selftest():
     V = []
     b = lambda name, file, old, new, rule, expect="", **kw: V.append(dict(name=name, kind="break", file=file, old=old, new=new, rule=rule, expect=expect, **kw))
@@ -450,4 +542,8 @@ def selftest():
     n("bounds: hoist subscript into a local", "c/phonopy.c", "                tp[i * num_temp * 3 + j * 3] +=\n", "                tp[i * num_temp * 3 + j * 3 + 0] +=\n")
     # R13f
     b("sparse predicate uses <= ", "c/phonopy.c", "if (length[k] - minimum < symprec) {", "if (length[k] - minimum <= symprec) {", "R13f", "selection predicate", nth=0)
+    DDC = "c/derivative_dynmat.c"
+    V.append(dict(name="get_dA returns the transposed Born element", kind="break", file=DDC, old="    return born[atom_i * 9 + cart_j * 3 + cart_i];", new="    return born[atom_i * 9 + cart_i * 3 + cart_j];", rule="R13g", expect="get_dA"))
+    V.append(dict(name="get_dC loses one off-diagonal term", kind="break", file=DDC, old="                q[1] * (dielectric[1] + dielectric[3]) +\n                q[2] * (dielectric[2] + dielectric[6]));", new="                q[1] * (dielectric[1] + dielectric[3]) +\n                q[2] * (dielectric[2] + dielectric[2]));", rule="R13g", expect="get_dC"))
+    V.append(dict(name="get_dA subscript reordered", kind="neutral", file=DDC, old="    return born[atom_i * 9 + cart_j * 3 + cart_i];", new="    return born[cart_i + 3 * cart_j + 9 * atom_i];"))
     return V
